@@ -14,6 +14,7 @@ RULE = ("all 27 table entries; per gate: matrix computable symbolically and nume
         "dagger and the additive group law on a tensor grid with 2*deg(residual)+1 points per parameter - which decides the identity for ALL real "
         "parameters; fixed relations exactly; history: all gates built in one process at exact int / negative / float / sympy values with every matrix held until the end. non-trivial = parametric gate with a certificate / a fixed relation between two different gates")
 RULE += ' Held history also at exact symbolic constants (pi, pi/2, 2pi, pi/3 ...: exact zeros of sin/cos) and tiny angles (1.5e-8, -4e-8, 3e-7).'
+RULE += ' Round 8: angles given as symbols of every single-letter and common name; matrices asked for from a worker thread.'
 RULE += ' Round 6: compound real expressions as parameters of every parametric gate (direct / bind / replace_params).'
 RULE += ' Round 5: every returned matrix must have the declared dimension before anything is computed with it; parameters as fractions.Fraction, signed zeros, large values; the same real values reached through compound expressions (theta+2u at u=0, two-step binds).'
 ASSUMPTIONS = ["sympy evaluates its own expressions at numbers correctly (lambdify/evalf)", "cut-off: a trigonometric polynomial of degree <= D vanishing on 2D+1 equispaced points vanishes identically",
@@ -66,6 +67,33 @@ def expression_case(case):
     base = N_sym = get_gate(name, tuple(slots)).matrix
     exprs = [2 * t, t + u, -t, t / 3 + 0.1, sympy.cos(t), t * u, t - u / 2, 3 * t + sympy.pi / 4, sympy.Rational(1, 2) * (t + 1)]
     ops = 0
+    # the angle may be a symbol of ANY name (single letters included - a factory's own placeholder names must not capture them), alone and inside a sum
+    import string
+    vals = [0.37 + 0.11 * j for j in range(k)]
+    want = N(get_gate(name, tuple(vals)).matrix, 2 ** nq, name)
+    for nm in list(string.ascii_lowercase) + ["theta", "phi", "lambda_", "angle", "gamma", "x0", "cs", "I0"]:
+        sy = sympy.Symbol(nm)
+        for ps_, sub_ in ((tuple([sy] + vals[1:]), {sy: vals[0]}), (tuple([sy + t] + vals[1:]), {sy: vals[0] - 0.2, t: 0.2})):
+            try:
+                A = N(sympy.Matrix(get_gate(name, ps_).matrix).subs(sub_), 2 ** nq, "%s%s" % (name, ps_))
+            except Viol:
+                raise
+            except Exception as e:  # noqa: BLE001
+                return {"ok": False, "msg": "%s with the angle %s: matrix cannot be computed / evaluated: %s: %s" % (name, ps_[0], type(e).__name__, str(e)[:80]), "sig": "expr:symbol-name", "ops": ops}
+            ops += 1
+            if not _close(A, want, atol=1e-10):
+                return {"ok": False, "msg": "%s with the angle given as %s (a symbol named %r), evaluated at %s, is not the gate's matrix there" % (name, ps_[0], nm, sub_), "sig": "expr:symbol-name", "ops": ops}
+    # the same matrices asked for from a worker thread (a thread pool evaluating circuits): same values
+    import concurrent.futures
+    with concurrent.futures.ThreadPoolExecutor(max_workers=1) as ex_:
+        try:
+            B = ex_.submit(lambda: N(get_gate(name, tuple(vals)).matrix, 2 ** nq, name)).result(timeout=300)
+        except Viol:
+            raise
+        except Exception as e:  # noqa: BLE001
+            return {"ok": False, "msg": "%s%s: the matrix cannot be computed in a worker thread: %s: %s" % (name, tuple(vals), type(e).__name__, str(e)[:80]), "sig": "expr:thread", "ops": ops}
+    if not _close(B, want, atol=1e-12):
+        return {"ok": False, "msg": "%s: matrix computed in a worker thread differs" % name, "sig": "expr:thread", "ops": ops}
     for rot in range(len(exprs)):
         ps = tuple(exprs[(rot + 2 * i) % len(exprs)] for i in range(k))
         for route in ("direct", "bind", "replace_params"):
